@@ -1,6 +1,12 @@
 HOOK_COMMITS = []
 NOT_APPLICABLE = {}
 CHECKS = {
+ "C08": {
+  "level": "exploration",
+  "technique": "runtime monitor: exhaustive partition dtype x magnitude class x kind x entry point with a representability oracle; live / re-opened / raw-dataset comparison; caller-buffer aliasing probe; numpy cast warnings recorded",
+  "text": "Every cell of (12 numpy dtypes) x (20 magnitude classes incl. 32-bit boundaries, +-2^31, +-2^40, 2^63-1, sub-normal, +-max, +-inf, NaN, non-integral, floats adjacent to the float no-data code) x (float, integer, boolean, referenced) x (add_data, values setter) is executed with seeded fillers; a representability predicate written from the statement decides: representable and accepted => live read, re-opened read and raw dataset (NaN as float no-data code, int32 with the integer no-data code, int8 0/1, 'Value map' with key 0 = Unknown) must equal what was written, also after the caller overwrites the buffer it passed; not representable => must raise (accepted = silently altered). Unicode strings of all planes, byte strings, string arrays, valid and invalid value maps, arbitrary byte blobs, comments and nested metadata round-trip through close and re-open with UTF-8 checked on the raw dataset. Held on the counted cells only.",
+  "note": "A refusal of a representable value is counted, not a violation (the statement obliges rejection of unrepresentable values, not acceptance of every representable one). NaN in boolean data and integers above 2^53 in float data are unclassified. The float equal to the sentinel is excluded (documented exception).",
+ },
  "C07": {
   "level": "exploration",
   "technique": "runtime monitor: tag-encoded GeometryModel (unique vertex tags, values a function of the element tag) checked after every operation of seeded removal / padding / masked-copy / failing-call sequences, live and after re-open",
